@@ -189,7 +189,13 @@ def r14_name_loop_var(text):
     return re.subn(r'\bfor\s+_\s+in\b', 'for loop_i in', text)
 
 
+def r4_value_payload_errors(text):
+    """R4: error variants that carry the offending `Value` (`Details::GetInt(other)`, ...) are projected to `Details::Other`."""
+    return re.subn(r'Details\s*::\s*Get[A-Z]\w*\s*\(\s*(?:other|self)\s*\)', 'Details::Other', text)
+
+
 GLOBAL_REWRITES = [
+    ('R4 Details::GetX(value) -> Details::Other', r4_value_payload_errors),
     ('R14 for _ in -> for loop_i in', r14_name_loop_var),
     ('R2 map_err(Ctor)->closure', r2_map_err_ctor),
     ('R2 map(Ctor)->closure', r2b_map_ctor),
